@@ -16,7 +16,7 @@ PROP = 'C07'
 FINAL = ('SUCCESS', 'ERROR', 'CANCELLED')
 RULE = ('case = (n items 0..8, 1-2 zipped lists, concurrency none|1..n+1|'
         'expression, action or sub-workflow items, per-item outcome, drawn '
-        'schedule, optional rerun reset on/off); non-trivial = n >= 2 with '
+        'schedule, optional retry policy with items failing their first k attempts, optional rerun reset on/off - both also with a concurrency limit); non-trivial = n >= 2 with '
         'completion order != index order, or concurrency < n, or a rerun; '
         'distinct = hash(case, choices taken)')
 
@@ -39,11 +39,22 @@ def gen_case(D, max_n=8):
     sub = D.bool(0.25)
     if sub:
         items = {k: v for k, v in items.items() if v[0] == 'err'}
+    retry = None
+    if not sub and D.bool(0.3):
+        # retry policy on the with-items task: an item may fail its first
+        # k attempts ('errn'); no cancelled items in these cases
+        retry = D.int(1, 2)
+        items = {}
+        for i in range(n):
+            if D.bool(0.3):
+                items[str(i)] = ['errn', D.int(1, 3), 'item-%d' % i]
     case = {'n': n, 'conc': conc, 'zipped': D.bool(0.3), 'sub': sub,
-            'items': items,
+            'items': items, 'retry': retry,
             'rerun': D.choice([None, None, 'reset', 'noreset']),
             'rerun_items': {},
             'sched': None, 'sched2': None, 'salt': D.int(0, 20)}
+    if retry:
+        case['rerun'] = None
     if case['rerun']:
         for i in range(n):
             if D.bool(0.15):
@@ -73,6 +84,9 @@ def render(case):
         lines.append("      action: std.echo output=<% [$.i, $.j] %>")
     else:
         lines.append("      action: std.echo output=<% $.i %>")
+    if case.get('retry'):
+        lines += ["      retry:", "        count: %d" % case['retry'],
+                  "        delay: 0"]
     lines += ["      publish:", "        res: <% task().result %>",
               "      on-success: after", "    after:",
               "      action: std.noop"]
@@ -109,6 +123,10 @@ def check_case(case, stats=None):
     def outcome(tname, idx, attempt, info):
         if tname == 'w':
             oc = items.get(str(idx))
+            if oc and oc[0] == 'errn':
+                if attempt < oc[1]:
+                    return ('err', oc[2])
+                return ('ok', expected_value(case, idx))
             if oc:
                 return (oc[0], oc[1])
             return ('ok', expected_value(case, idx))
@@ -154,7 +172,8 @@ def check_case(case, stats=None):
         for k in kids:
             if k['state'] in FINAL and k['id'] not in order:
                 order.append(k['id'])
-        if t['state'] in FINAL and state['done_step'] is None:
+        if t['state'] in FINAL and state['done_step'] is None and \
+                not case.get('retry'):
             state['done_step'] = rec['step']
             unfinished = [k for k in kids if k['state'] not in FINAL]
             cancelled = [k for k in kids if k['state'] == 'CANCELLED']
@@ -185,9 +204,7 @@ def check_case(case, stats=None):
         reordered = seq != sorted(seq)
     did_rerun = False
     if case.get('rerun') and t_rows and t_rows[0]['state'] == 'ERROR' \
-            and not viol and (limit is None):
-        # (with a concurrency limit: known finding
-        # withitems-rerun-concurrency, re-created by its own sub-check)
+            and not viol:
         did_rerun = True
         before = {k['id'] for k in _kids(case, snap, t_rows[0]['id'])}
         failed_idx = sorted({_index(case, k) for k in
@@ -232,6 +249,10 @@ def check_case(case, stats=None):
             tg.append('zipped')
         if did_rerun:
             tg.append('rerun_' + case['rerun'])
+        if case.get('retry'):
+            tg.append('retry_policy')
+            if limit is not None and limit < n:
+                tg.append('retry_with_concurrency_below_n')
         if reordered:
             tg.append('completion_order_differs')
         if any(v[0] == 'cancel' for v in case['items'].values()):
@@ -315,7 +336,22 @@ def _final_checks(case, snap, wid, items, phase):
             viol.append({'kind': 'empty-list-did-not-succeed',
                          'detail': {'state': t['state']}})
         return viol
-    if phase == 1 and len(idxs) != len(set(idxs)):
+    if case.get('retry'):
+        # reference: item i fails its first k_i attempts; the retry policy
+        # repeats the whole task (it invalidates every item result), so the
+        # task is attempted T = min(retry + 1, max k + 1) times and every
+        # item runs once per task attempt
+        ks = {int(i): v[1] for i, v in items.items() if v[0] == 'errn'}
+        maxk = max(ks.values()) if ks else 0
+        T = min(case['retry'] + 1, maxk + 1)
+        want_runs = {i: T for i in range(n)}
+        got_runs = {i: idxs.count(i) for i in range(n)}
+        if got_runs != want_runs:
+            viol.append({'kind': 'retry-executed-wrong-items',
+                         'detail': {'executions_per_index': got_runs,
+                                    'expected': want_runs,
+                                    'retry': case['retry']}})
+    elif phase == 1 and len(idxs) != len(set(idxs)):
         viol.append({'kind': 'item-started-more-than-once',
                      'detail': {'indexes': sorted(idxs)}})
     if not any_cancel:
@@ -395,6 +431,6 @@ def main(tier, seed):
         known_hits=hits,
         assumptions=['capacity accounting races inside one statement window '
                      'are not representable (single engine process)',
-                     'reruns are generated only for tasks without a '
-                     'concurrency limit (known finding '
-                     'withitems-rerun-concurrency)'])
+                     'retry repeats the whole task (every item once per '
+                     'task attempt), a rerun with reset off only the '
+                     'failed items'])
